@@ -143,4 +143,160 @@ theorem readCopy_ok (wo : WordOracle) (window np nd A : Nat) (distD distB : List
       simp only [if_true, List.nil_append, show (0 : Nat) < 16 + nd by omega, takeBits_zero, hdist.2]
       cases applyCopy wo window np nd mlen done cl out ring 0 0 <;> rfl
 
+theorem lockstep_cursor (wo : WordOracle) (np nd window : Nat) (mb : Bytes) (s : DecSt) (p : Nat) (cs : List Cmd)
+    (h : lockstep wo np nd window mb s p cs = true) : s.cursor = p := by
+  cases cs with
+  | nil => simp [lockstep] at h; exact h.1
+  | cons c cs => simp only [lockstep, Bool.and_eq_true, decide_eq_true_eq] at h; exact h.1
+
+theorem rdst_eta (r : RdSt) : (⟨r.out, r.ring⟩ : RdSt) = r := by cases r; rfl
+
+theorem storeData_sim (wo : WordOracle) (window np nd A : Nat) (ring : Bytes) (mask start : Nat) (mb : Bytes)
+    (litD litB cmdD cmdB distD distB : List Nat) (lit cmd dist : Code)
+    (hR : RingHolds ring mask start mb) :
+    ∀ (cmds : List Cmd) (ds : DecSt) (w : Writer),
+      lockstep wo np nd window mb ds ds.cursor cmds = true →
+      (∀ b ∈ litsOf mb ds.cursor cmds, SymIO litD litB lit b) →
+      (∀ c ∈ cmds, cmdOK A np nd c = true) →
+      (∀ c ∈ cmds, SymIO cmdD cmdB cmd c.cmdPrefix) →
+      (∀ c ∈ cmds, copyLen c ≠ 0 → c.cmdPrefix ≥ 128 → SymIO distD distB dist (c.distPrefix % 1024)) →
+      ∃ db fin, storeData ring mask litD litB cmdD cmdB distD distB cmds (posOf start ds.cursor) w = .ok (w ++ db) ∧
+        decSteps wo np nd window mb ds cmds = some fin ∧ fin.cursor = mb.length ∧
+        ∀ (rest : List Bool) (f : Nat), cmds.length + 1 ≤ f →
+          readCommands wo window np nd lit cmd dist mb.length f ds.cursor ⟨ds.out, ds.ring⟩ (db ++ rest)
+            = some (⟨fin.out, fin.ring⟩, rest) := by
+  intro cmds
+  induction cmds with
+  | nil =>
+    intro ds w hl _ _ _ _
+    simp only [lockstep, Bool.and_eq_true, decide_eq_true_eq] at hl
+    refine ⟨[], ds, by simp [storeData], rfl, hl.2, ?_⟩
+    intro rest f hf
+    obtain ⟨f', rfl⟩ : ∃ f', f = f' + 1 := ⟨f - 1, by simp at hf; omega⟩
+    simp [readCommands, hl.2]
+  | cons c cs ih =>
+    intro ds w hl hlit hok hcmd hdist
+    simp only [litsOf] at hlit
+    simp only [lockstep, Bool.and_eq_true, decide_eq_true_eq] at hl
+    obtain ⟨_, hl⟩ := hl
+    cases hd : decStep wo np nd window mb ds c with
+    | none => rw [hd] at hl; simp at hl
+    | some s' =>
+      rw [hd] at hl
+      simp only at hl
+      rw [decStep_eq] at hd
+      have hrem : ¬ (mb.length - ds.cursor = 0) := by
+        intro h; rw [if_pos h] at hd; cases hd
+      rw [if_neg hrem] at hd
+      have hins : ¬ (c.insertLen > mb.length - ds.cursor) := by
+        intro h; rw [if_pos h] at hd; cases hd
+      rw [if_neg hins] at hd
+      have hcok := hok c (by simp)
+      obtain ⟨ic, cc, ib, ie, cb, ce, hsym, hic, hcc, hit, hct, hib, hie, hcb, hce, hextra⟩ := cmd_facts A np nd c hcok
+      obtain ⟨sb, hs, hr⟩ := hcmd c (by simp)
+      obtain ⟨lb, hl1, hl2⟩ := storeLits_ok ring mask start mb litD litB lit hR c.insertLen ds.cursor
+        (w ++ sb ++ (bitsOf ie (c.insertLen - ib) ++ bitsOf ce (copyLenCode c.copyLenField - cb))) (by omega)
+        (fun b hb => hlit b (List.mem_append_left _ hb))
+      have hri := fun out r => readInsert_ok lit cmd mb.length ds.cursor out c.cmdPrefix ic cc ib ie cb ce c.insertLen
+        (copyLenCode c.copyLenField) sb lb r ((mb.drop ds.cursor).take c.insertLen) hr hsym hic hcc hit hct hib hie hcb hce
+        (by omega) hl2
+      simp only [List.append_assoc] at hri
+      by_cases hterm : ds.cursor + c.insertLen = mb.length
+      · -- the insert half completes the meta-block
+        rw [if_pos hterm] at hd hl
+        simp only [Bool.and_eq_true, decide_eq_true_eq, List.isEmpty_iff] at hl
+        obtain ⟨hnil, hc0⟩ := hl
+        subst hnil
+        injection hd with hd
+        refine ⟨sb ++ ((bitsOf ie (c.insertLen - ib) ++ bitsOf ce (copyLenCode c.copyLenField - cb)) ++ lb), s', ?_, ?_, ?_, ?_⟩
+        · unfold storeData
+          rw [hs w, Out.bind_ok, hextra, Out.bind_ok, hl1, Out.bind_ok]
+          simp only [hc0, ne_eq, not_true_eq_false, false_and, if_false, Out.bind_ok, storeData]
+          simp [List.append_assoc]
+        · simp only [decSteps]
+          rw [decStep_eq, if_neg hrem, if_neg hins, if_pos hterm, hd]
+        · rw [← hd]; exact hterm
+        · intro rest f hf
+          obtain ⟨f', rfl⟩ : ∃ f', f = f' + 1 := ⟨f - 1, by simp at hf; omega⟩
+          unfold readCommands
+          rw [if_neg (by omega)]
+          simp only [List.append_assoc]
+          rw [hri]
+          simp only [hterm, if_true]
+          rw [← hd]
+      · -- a copy follows
+        rw [if_neg hterm] at hd hl
+        simp only [Bool.and_eq_true, decide_eq_true_eq] at hl
+        obtain ⟨hcl, hl⟩ := hl
+        have hcur := lockstep_cursor _ _ _ _ _ _ _ _ hl
+        cases hac : applyCopy wo window np nd mb.length (ds.cursor + c.insertLen) (copyLenCode c.copyLenField)
+            (ds.out ++ (mb.drop ds.cursor).take c.insertLen) ds.ring (c.distPrefix % 1024) c.distExtra with
+        | none => rw [hac] at hd; simp at hd
+        | some nr =>
+          obtain ⟨n, r⟩ := nr
+          rw [hac] at hd
+          simp only [Option.map_some, Option.some.injEq] at hd
+          have hn : n = copyLen c := by
+            rw [← hd] at hcur; simp only at hcur; omega
+          subst hn
+          obtain ⟨dbits, hdw, hdr⟩ := readCopy_ok wo window np nd A distD distB dist c hcok hcl (hdist c (by simp) hcl)
+          rw [← hcur] at hl
+          have hs'c : s'.cursor = ds.cursor + c.insertLen + copyLen c := by rw [← hd]
+          obtain ⟨db', fin, h1, h2, h3, h4⟩ := ih s'
+            (w ++ sb ++ (bitsOf ie (c.insertLen - ib) ++ bitsOf ce (copyLenCode c.copyLenField - cb)) ++ lb ++ dbits)
+            hl (fun b hb => hlit b (List.mem_append_right _ (by rw [← hs'c]; exact hb))) (fun x hx => hok x (List.mem_cons_of_mem _ hx)) (fun x hx => hcmd x (List.mem_cons_of_mem _ hx))
+            (fun x hx => hdist x (List.mem_cons_of_mem _ hx))
+          refine ⟨sb ++ ((bitsOf ie (c.insertLen - ib) ++ bitsOf ce (copyLenCode c.copyLenField - cb)) ++ (lb ++ (dbits ++ db'))),
+            fin, ?_, ?_, h3, ?_⟩
+          · unfold storeData
+            rw [hs w, Out.bind_ok, hextra, Out.bind_ok, hl1, Out.bind_ok]
+            simp only
+            rw [hdw, Out.bind_ok, posOf_add, ← hs'c, h1]
+            simp [List.append_assoc]
+          · simp only [decSteps]
+            rw [decStep_eq, if_neg hrem, if_neg hins, if_neg hterm, hac]
+            simp only [Option.map_some, hd]
+            exact h2
+          · intro rest f hf
+            obtain ⟨f', rfl⟩ : ∃ f', f = f' + 1 := ⟨f - 1, by simp at hf; omega⟩
+            unfold readCommands
+            rw [if_neg (by omega)]
+            simp only [List.append_assoc]
+            rw [hri]
+            simp only [hterm, if_false]
+            rw [hdr, hac]
+            simp only
+            have e1 : (r : RdSt) = ⟨s'.out, s'.ring⟩ := by rw [← hd]
+            rw [e1, ← hs'c]
+            exact h4 rest f' (by simp at hf; omega)
+/-- every command of a lockstep array produces at least one byte: the number of commands is at most
+the number of bytes left, so the reader's fuel `MLEN + 1` suffices -/
+theorem lockstep_length (wo : WordOracle) (np nd window : Nat) (mb : Bytes) :
+    ∀ (cs : List Cmd) (s : DecSt) (p : Nat), lockstep wo np nd window mb s p cs = true →
+      p + cs.length ≤ mb.length := by
+  intro cs
+  induction cs with
+  | nil => intro s p h; simp [lockstep] at h; simp; omega
+  | cons c cs ih =>
+    intro s p h
+    simp only [lockstep, Bool.and_eq_true, decide_eq_true_eq] at h
+    obtain ⟨hp, h⟩ := h
+    cases hd : decStep wo np nd window mb s c with
+    | none => rw [hd] at h; simp at h
+    | some s' =>
+      rw [hd] at h
+      simp only at h
+      rw [decStep_eq] at hd
+      have hrem : ¬ (mb.length - s.cursor = 0) := by
+        intro h; rw [if_pos h] at hd; cases hd
+      by_cases ht : p + c.insertLen = mb.length
+      · rw [if_pos ht] at h
+        simp only [Bool.and_eq_true, decide_eq_true_eq, List.isEmpty_iff] at h
+        rw [h.1]; simp; omega
+      · rw [if_neg ht] at h
+        simp only [Bool.and_eq_true, decide_eq_true_eq] at h
+        have := ih s' _ h.2
+        simp only [List.length_cons]
+        omega
+
 end BV.MetaBlock
